@@ -24,7 +24,7 @@ PLAN = {
     "thorough": {"shards": 16, "shard_timeout": 3600, "case_timeout": 90, "steps": 2000000, "runs": 75000, "max_case_timeouts": 10},
 }
 THRESHOLDS = {
-    "quick": {"elitism_applications": 1400, "with_ties": 400, "minimising": 400, "iterator_inputs": 300, "multi_objective": 200, "generations_with_elitism_slot": 300, "runs": 50, "with_infinite_values": 200, "with_near_equal_values": 200},
+    "quick": {"elitism_applications": 1400, "with_ties": 400, "minimising": 400, "iterator_inputs": 300, "multi_objective": 200, "generations_with_elitism_slot": 300, "runs": 50, "with_infinite_values": 200, "with_near_equal_values": 200, "multi_objective_runs": 15, "runs_with_elitism_after_a_sibling": 20, "runs_with_lexicase_sibling": 8},
     "thorough": {"elitism_applications": 38000, "generations_with_elitism_slot": 10000},
 }
 
@@ -42,7 +42,11 @@ def gen_cases(tier, seed):
         vals = [rng.choice(pool) for _ in range(n)]
         yield {"kind": "step", "n": n, "values": vals, "minimize": rng.random() < 0.5, "k": rng.randint(1, n), "form": rng.choice(["list", "iterator", "list"]), "multi": rng.random() < 0.25, "evaluated": rng.random() < 0.6, "seed": rng.randrange(10**6)}
     for i in range(PLAN[tier]["runs"]):
-        yield {"kind": "run", "pop": rng.choice([3, 4, 5, 8, 10, 20]), "gens": rng.randint(5, 40 if tier == "thorough" else 15), "minimize": rng.random() < 0.5, "weights": [rng.choice([1, 2, 5, 10]), rng.choice([1, 5, 50, 90])], "repr": rng.choice(["tree", "ge"]), "inner": rng.choice(["mut", "cx+mut", "novelty"]), "seed": rng.randrange(10**6)}
+        yield {"kind": "run", "pop": rng.choice([3, 4, 5, 8, 10, 20]), "gens": rng.randint(5, 40 if tier == "thorough" else 15), "minimize": rng.random() < 0.5, "weights": [rng.choice([1, 2, 5, 10]), rng.choice([1, 5, 50, 90])], "repr": rng.choice(["tree", "ge"]), "inner": rng.choice(["mut", "cx+mut", "novelty"]), "objectives": 1, "elitism_at": 0, "seed": rng.randrange(10**6)}
+    for i in range(PLAN[tier]["runs"] // 2):
+        # the elitism slice anywhere among its siblings, multi-objective problems, lexicase among the siblings
+        nobj = rng.choice([1, 2, 3])
+        yield {"kind": "run", "pop": rng.choice([4, 5, 8, 10, 20]), "gens": rng.randint(5, 40 if tier == "thorough" else 12), "minimize": rng.random() < 0.5, "mins": [rng.random() < 0.5 for _ in range(3)], "weights": [rng.choice([1, 2, 5]), rng.choice([2, 5, 9]), rng.choice([1, 3])], "repr": rng.choice(["tree", "ge"]), "inner": rng.choice(["mut", "lexicase+mut", "lexicase+mut", "tournament-r+mut"]) if nobj > 1 else rng.choice(["mut", "cx+mut", "tournament-r+mut"]), "third": rng.choice([None, "novelty", "mut"]), "objectives": nobj, "elitism_at": rng.choice([0, 1, 1, 2]), "seed": rng.randrange(10**6)}
 
 
 def run_case(case, rec):
@@ -132,7 +136,9 @@ def run_run(case, rec):
     from geneticengine.algorithms.gp.operators.selection import TournamentSelection
     from geneticengine.evaluation.sequential import SequentialEvaluator
     from geneticengine.evaluation.tracker import SingleObjectiveProgressTracker
-    from geneticengine.problems import SingleObjectiveProblem
+    from geneticengine.algorithms.gp.operators.selection import LexicaseSelection
+    from geneticengine.evaluation.tracker import MultiObjectiveProgressTracker
+    from geneticengine.problems import MultiObjectiveProblem, SingleObjectiveProblem
 
     slots: list = []
 
@@ -144,19 +150,44 @@ def run_run(case, rec):
     g, _ = evo.tiny()
     src = workload.native(case["seed"])
     rep = evo.make_rep(case["repr"], g, src)
-    fit = evo.TableFitness(modulus=23)
-    prob = SingleObjectiveProblem(fit, minimize=case["minimize"])
+    nobj = case.get("objectives", 1)
     R = evo.make_recorder_class()
     r = R()
-    tracker = SingleObjectiveProgressTracker(prob, SequentialEvaluator(), recorders=[r])
+    if nobj == 1:
+        fit = evo.TableFitness(modulus=23)
+        prob = SingleObjectiveProblem(fit, minimize=case["minimize"])
+        tracker = SingleObjectiveProgressTracker(prob, SequentialEvaluator(), recorders=[r])
+        mins = None
+    else:
+        fit = evo.TableFitness(n_objectives=nobj, modulus=23)
+        mins = list(case["mins"][:nobj])
+        prob = MultiObjectiveProblem(mins, fit)
+        tracker = MultiObjectiveProgressTracker(prob, SequentialEvaluator(), recorders=[r])
+        rec.count("multi_objective_runs")
     inner = {
-        "mut": SequenceStep(TournamentSelection(2), GenericMutationStep(1.0)),
-        "cx+mut": SequenceStep(TournamentSelection(3), GenericCrossoverStep(0.8), GenericMutationStep(0.7)),
-        "novelty": NoveltyStep(),
-    }[case["inner"]]
-    step = ParallelStep([SlotRecordingElitism(), inner], weights=case["weights"])
+        "mut": lambda: SequenceStep(TournamentSelection(2), GenericMutationStep(1.0)),
+        "cx+mut": lambda: SequenceStep(TournamentSelection(3), GenericCrossoverStep(0.8), GenericMutationStep(0.7)),
+        "novelty": lambda: NoveltyStep(),
+        "lexicase+mut": lambda: SequenceStep(LexicaseSelection(), GenericMutationStep(1.0)),
+        "tournament-r+mut": lambda: SequenceStep(TournamentSelection(3, with_replacement=True), GenericMutationStep(1.0)),
+    }
+    siblings = [inner[case["inner"]]()]
+    if case.get("third"):
+        siblings.append(inner[case["third"]]())
+    at = min(case.get("elitism_at", 0), len(siblings))
+    siblings.insert(at, SlotRecordingElitism())
+    weights = list(case["weights"][: len(siblings)])
+    if len(weights) == 2 and at == 0 and "third" not in case:
+        pass  # round-1 shape: [elitism, inner] with the case's two weights
+    if at:
+        rec.count("runs_with_elitism_after_a_sibling")
+    if "lexicase" in case["inner"]:
+        rec.count("runs_with_lexicase_sibling")
+    step = ParallelStep(siblings, weights=weights)
     gp = GeneticProgramming(prob, evo.check_count_budget(case["gens"]), rep, src, tracker=tracker, population_size=case["pop"], step=step)
-    wit = {k: case[k] for k in ("pop", "gens", "minimize", "weights", "repr", "inner")}
+    wit = {k: case.get(k) for k in ("pop", "gens", "minimize", "weights", "repr", "inner", "third", "objectives", "elitism_at")}
+    if mins is not None:
+        wit["minimize"] = mins
     try:
         gp.search()
     except core.CaseTimeout:
@@ -168,7 +199,7 @@ def run_run(case, rec):
     best: dict = {}
     for ind, _, gen, _ in r.events:
         v = fit.pure(ind.get_phenotype())
-        good = -v if case["minimize"] else v
+        good = (-v if case["minimize"] else v) if mins is None else sum((-x if m else x) for x, m in zip(v, mins))
         best[gen] = good if gen not in best else max(best[gen], good)
     slot_of = {gen: k for gen, k in slots}
     for gen in sorted(best):
@@ -179,7 +210,7 @@ def run_run(case, rec):
             rec.count("evaluations")
             rec.distinct_add([wit, gen])
             if best[gen] < best[gen - 1]:
-                rec.violation(f"best-fitness-worsened:{'min' if case['minimize'] else 'max'}", dict(wit, generation=gen, before=best[gen - 1], after=best[gen], elitism_slots=slot_of.get(gen)))
+                rec.violation(f"best-fitness-worsened:{('min' if case['minimize'] else 'max') if mins is None else 'multi'}", dict(wit, generation=gen, before=best[gen - 1], after=best[gen], elitism_slots=slot_of.get(gen)))
         else:
             rec.count("generations_without_elitism_slot")
     rec.sample(dict(wit, best_per_generation=[best[k] for k in sorted(best)][:12], slots=sorted(set(k for _, k in slots))), cap=3)
